@@ -1,6 +1,6 @@
 #!/usr/bin/env python3
 """Refresh the block of agreement-theorem names in META['theorems'] of harness/cXX.py from
-lean/PyodaProofs/GenAgree<Prop>.lean (every `theorem gen_*`).  The block starts at the marker comment
+lean/PyodaProofs/GenAgree<Prop>.lean (every `theorem gen_*` and `theorem *_in_source`).  The block starts at the marker comment
 '# agreement of the definitions generated from the Python source' and ends at the closing bracket of the list.
 usage: tools/gen_tie_meta.py C01 [C02 ...]   then run tools/gen_audit.py and tools/gen_manifest.py."""
 import ast
@@ -20,7 +20,7 @@ for prop in [a.upper() for a in sys.argv[1:]]:
     names = []
     for g in groups:
         src = (V / "lean" / "PyodaProofs" / f"GenAgree{g}.lean").read_text()
-        names += [f"{g}.{n}" for n in re.findall(r"^theorem (gen_\S+)", src, flags=re.M)]
+        names += [f"{g}.{n}" for n in re.findall(r"^theorem (gen_\S+|\w+_in_source)\b", src, flags=re.M)]
     lines, cur = [], "        "
     for n in names:
         item = f'"Pyoda.GenAgree.{n}", '
